@@ -2,6 +2,7 @@
   C03 — totality.  Property statements only.
 -/
 import XonshVerif.Proofs.Tokenize
+import XonshVerif.Proofs.PegTotal
 namespace XV.Tz
 open XV XV.Rx
 
@@ -22,3 +23,56 @@ theorem tokenize_total (E : Env) (P : Pats) (hP : PseudoProgress P) (src : List 
     exact tokenizeLines_no_loopFuel E P hP _ _ _ _ ts (by omega) he
 
 end XV.Tz
+
+namespace XV.Peg
+
+/-- **parser_total (C03, parser part).**  For every program that passes the well-formedness checker `wfCert`
+    (with whatever witnesses), every token list, every start rule and both verbosity settings, `Parser.parse`
+    reaches a verdict: there is a fuel with which neither the first pass nor the diagnostic pass runs out.
+    `wfCert` is checked by the kernel on the IR regenerated from the shipped parser.py (`XVC.wf_cert`). -/
+theorem parser_total (prog : Prog) (W : WfW) (hcert : wfCert prog W = true) (w : Array RTok) (start : Nat) (verbose : Bool) :
+    ∃ fuel, (parse prog w fuel start verbose).1 ≠ .outOfFuel :=
+  parse_total hcert w start verbose
+
+/-- **fuel is only a proof device**: once a verdict is reached, more fuel changes neither the verdict nor any state. -/
+theorem verdict_independent_of_fuel (prog : Prog) (w : Array RTok) (n k start : Nat) (v : Bool)
+    (h : (parse prog w n start v).1 ≠ .outOfFuel) : parse prog w (n + k) start v = parse prog w n start v :=
+  parse_fuel_mono n k start v h
+
+/-! Non-vacuity.  `totProg`: rule 0 `E: E '+' T | T` (a left-recursion leader), rule 1 `T: NAME+`.  It passes the checker
+    with ranks (1, 0); and the run on `a + a` really goes through the seed-growing loop. -/
+def totProg : Prog := #[
+  { deco := .leftrec, body := .alts [
+      { items := [⟨.call (.rule 0), false⟩, ⟨.call (.expect 7), false⟩, ⟨.call (.rule 1), false⟩], act := .truthy, cut := false },
+      { items := [⟨.call (.rule 1), false⟩], act := .truthy, cut := false }] false false },
+  { deco := .none, body := .alts [{ items := [⟨.repeated .name, false⟩], act := .truthy, cut := false }] false false }]
+def totW : WfW := { nullable := fun _ => false, rank := fun i => if i = 0 then 1 else 0, lr := fun i => i == 0 }
+def tokA : RTok := { ty := .NAME, strId := 1, isKw := false, isSoft := false }
+def tokPlus : RTok := { ty := .OP, strId := 7, isKw := false, isSoft := false }
+def tokEnd : RTok := { ty := .ENDMARKER, strId := 0, isKw := false, isSoft := false }
+def wAPA : Array RTok := #[tokA, tokPlus, tokA, tokEnd]
+def wP : Array RTok := #[tokPlus, tokEnd]
+def wA : Array RTok := #[tokA, tokEnd]
+
+example : wfCert totProg totW = true := by decide
+example : (parse totProg wAPA 40 0 false).1 = .tree := by decide +kernel
+example : (parse totProg wAPA 40 0 false).2.1.pos = 3 := by decide +kernel
+
+/-! The two ways to loop, and the checker refusing both.  `spinProg`: `R: (!NAME)*` - the `while result := func()` of
+    `repeated` spins on a body that succeeds without consuming.  `selfProg`: `R: R NAME` without the left-recursion
+    decorator.  On both the model runs out of any fuel tried (a test, not a theorem) and `wfCert` is false for the natural
+    witnesses (and for `selfProg` for every witness: rank 0 < rank 0 is impossible). -/
+def spinProg : Prog := #[
+  { deco := .none, body := .alts [{ items := [⟨.repeated (.rule 1), false⟩], act := .truthy, cut := false }] false false },
+  { deco := .none, body := .alts [{ items := [⟨.negLook .name, false⟩], act := .truthy, cut := false }] false false }]
+def selfProg : Prog := #[
+  { deco := .none, body := .alts [{ items := [⟨.call (.rule 0), false⟩, ⟨.call .name, false⟩], act := .truthy, cut := false }] false false }]
+
+example : (parse spinProg wP 200 0 false).1 = .outOfFuel := by decide +kernel
+example : (parse selfProg wA 200 0 false).1 = .outOfFuel := by decide +kernel
+example : wfCert spinProg { nullable := fun i => i == 1, rank := fun i => if i = 0 then 1 else 0, lr := fun _ => false } = false := by decide
+example : wfCert spinProg { nullable := fun _ => false, rank := fun i => if i = 0 then 1 else 0, lr := fun _ => false } = false := by decide
+theorem selfProg_rejected (W : WfW) : wfCert selfProg W = false := by
+  cases hl : W.lr 0 <;> simp [wfCert, wfCertAux, selfProg, ruleOK, bodyOK, itemsOK, itemFirstOK, primOK, hl]
+
+end XV.Peg
